@@ -366,13 +366,15 @@ pub struct ProbeResult {
     /// frames the endpoint queued for the peer while handling the forged frame
     pub emitted: u64,
     pub notes: Vec<&'static str>,
+    /// the field that makes the frame illegal according to the RFC model, when it is not the field under test
+    pub culprit: Option<String>,
     pub detail: String,
     pub harness_error: Option<String>,
 }
 
 impl ProbeResult {
     pub fn new() -> Self {
-        ProbeResult { handlers: vec![], answer: Answer::Ok, frame_len: 0, units: 0, expect: None, emitted: 0, notes: vec![], detail: String::new(), harness_error: None }
+        ProbeResult { handlers: vec![], answer: Answer::Ok, frame_len: 0, units: 0, expect: None, emitted: 0, notes: vec![], culprit: None, detail: String::new(), harness_error: None }
     }
     pub fn harness(msg: impl Into<String>) -> Self {
         let mut r = Self::new();
@@ -390,10 +392,11 @@ impl Default for ProbeResult {
 /// One execution of history + forged frame on the calling thread, on a fresh paused tokio clock.
 pub fn probe(case: &Case, forged: &Forged) -> ProbeResult {
     simcore::entropy::seed_thread_entropy(case.seed);
+    meter::arm(false);
     let rt = tokio::runtime::Builder::new_current_thread().enable_time().start_paused(true).build().expect("runtime");
     rt.block_on(async {
         match &case.hist {
-            Hist::Journal(h) => journal::probe(h, forged).await,
+            Hist::Journal(h) => journal::probe(h, forged, case.field).await,
             Hist::Cid(h) => cid::probe(h, forged, case.seed),
             Hist::Stream(h) => stream::probe(h, forged),
             Hist::Crypto(h) => stream::probe_crypto(h, forged),
@@ -416,6 +419,8 @@ struct Driver<'a> {
     tx: &'a mpsc::Sender<Msg>,
     field_name: String,
     probes: u64,
+    /// handlers already reported by the work oracle in this case (not measured again)
+    flagged: std::collections::BTreeSet<&'static str>,
 }
 
 /// per handler: cost at the lowest ladder step
@@ -430,7 +435,11 @@ impl Driver<'_> {
     fn run(&mut self, forged: &Forged, label: &str) -> Option<ProbeResult> {
         self.beat(&format!("{}:{}", label, self.field_name));
         self.probes += 1;
+        let t0 = std::time::Instant::now();
         let mut r = probe(self.case, forged);
+        if std::env::var("BYZSIM_DEBUG").is_ok() {
+            eprintln!("[byzsim] probe {label} wall {} us", t0.elapsed().as_micros());
+        }
         if let Some(e) = r.harness_error.take() {
             self.out.harness_error = Some(format!("{e} [{label}]"));
             return None;
@@ -456,7 +465,8 @@ impl Driver<'_> {
                     return None;
                 }
                 self.out.stats.bump("probe.result.panic");
-                self.out.violate("panic", format!("{}:{}", h.name, self.field_name), format!("{} at {} [{}; {}]", p.message, p.location, label, r.detail), self.probes);
+                let field = r.culprit.clone().unwrap_or_else(|| self.field_name.clone());
+                self.out.violate("panic", format!("{}:{}", h.name, field), format!("{} at {} [{}; {}]", p.message, p.location, label, r.detail), self.probes);
             }
         }
         // error oracle
@@ -498,9 +508,13 @@ impl Driver<'_> {
         let mut mem_flag = false;
         let mut cpu_flag = false;
         for h in &r.handlers {
+            if self.flagged.contains(h.name) {
+                continue;
+            }
             let b = bottom.get(h.name).copied().unwrap_or_default();
             if meter::mem_excess(h.cost.alloc, b.alloc, n) {
                 mem_flag = true;
+                self.flagged.insert(h.name);
                 self.out.violate(
                     "work-mem",
                     format!("{}:{}", h.name, self.field_name),
@@ -518,16 +532,23 @@ impl Driver<'_> {
                         break;
                     }
                     self.beat(&format!("{}:{}:repeat", label, self.field_name));
+                    meter::set_stop_after(Some(h.name));
                     let again = probe(self.case, forged);
                     let mut c = again.handlers.iter().find(|x| x.name == h.name).map(|x| x.cost.cpu_ns).unwrap_or(0);
                     if let Some(ctrl) = forged.control(self.case.field) {
+                        meter::set_stop_after(Some(h.name));
                         let cr = probe(self.case, &ctrl);
                         c = c.saturating_sub(cr.handlers.iter().find(|x| x.name == h.name).map(|x| x.cost.cpu_ns).unwrap_or(0));
                     }
+                    meter::set_stop_after(None);
                     min = min.min(c);
+                }
+                if std::env::var("BYZSIM_DEBUG").is_ok() {
+                    eprintln!("[byzsim] cpu {} {} first {} us, min {} us", h.name, label, h.cost.cpu_ns / 1000, min / 1000);
                 }
                 if meter::cpu_excess(min, b.cpu_ns, n) {
                     cpu_flag = true;
+                    self.flagged.insert(h.name);
                     self.out.violate(
                         "work-cpu",
                         format!("{}:{}", h.name, self.field_name),
@@ -560,6 +581,7 @@ impl Driver<'_> {
         let debug = std::env::var("BYZSIM_DEBUG").is_ok();
         let mut dependent = false;
         let mut covered = false;
+        let mut largest_run = 0u64;
         let mut bottom: Bottom = BTreeMap::new();
         if ladderable {
             for k in LADDER {
@@ -570,6 +592,7 @@ impl Driver<'_> {
                 let f = case.forged.with(case.field, step);
                 let label = format!("ladder 2^{k}");
                 let Some(r) = self.run(&f, &label) else { return };
+                largest_run = step;
                 if debug {
                     eprintln!("[byzsim] {} {} -> {:?} {:?}", self.field_name, label, r.answer, r.handlers.iter().map(|h| (h.name, h.cost.alloc, h.cost.cpu_ns / 1000)).collect::<Vec<_>>());
                 }
@@ -597,7 +620,8 @@ impl Driver<'_> {
             }
             self.out.stats.bump(if dependent { "probe.ladder.value_dependent" } else { "probe.ladder.value_independent" });
         }
-        if !covered && (v <= 1 << 22 || !dependent) {
+        // a value larger than anything run so far is only sent to a chain the ladder showed to be value-independent
+        if !covered && (!dependent || v <= largest_run) {
             let label = format!("point {}", val.class());
             let f = case.forged.clone();
             let Some(r) = self.run(&f, &label) else { return };
@@ -614,7 +638,7 @@ impl Driver<'_> {
 }
 
 fn run_case(case: &Case, tx: &mpsc::Sender<Msg>) -> Outcome {
-    let mut d = Driver { case, out: Outcome::default(), th: TraceHash::default(), tx, field_name: case.forged.field_name(case.field), probes: 0 };
+    let mut d = Driver { case, out: Outcome::default(), th: TraceHash::default(), tx, field_name: case.forged.field_name(case.field), probes: 0, flagged: Default::default() };
     d.drive();
     let mut out = d.out;
     out.trace_hash = d.th.get();
@@ -665,10 +689,13 @@ impl Engine for ByzSim {
         // take the harness with it); the helper owns the allocation and CPU meters (both per thread)
         let (tx, rx) = mpsc::channel::<Msg>();
         let c = case.clone();
-        let spawned = std::thread::Builder::new().name("byzsim-probe".into()).stack_size(8 << 20).spawn(move || {
-            simcore::panics::install();
+        let current: std::sync::Arc<std::sync::Mutex<&'static str>> = std::sync::Arc::new(std::sync::Mutex::new("-"));
+        let current2 = current.clone();
+        meter::install_hook();
+        let spawned = std::thread::Builder::new().name(meter::PROBE_THREAD.into()).stack_size(8 << 20).spawn(move || {
             simcore::entropy::seed_thread_entropy(c.seed);
-            let out = match simcore::panics::guarded(|| run_case(&c, &tx)) {
+            meter::share_current(current2);
+            let out = match meter::guarded(|| run_case(&c, &tx)) {
                 Ok(o) => o,
                 Err(rec) => {
                     let mut o = Outcome::default();
@@ -687,18 +714,27 @@ impl Engine for ByzSim {
             }
         };
         let mut last = String::from("start");
+        let t0 = std::time::Instant::now();
+        let slow: Option<u128> = std::env::var("BYZSIM_SLOW").ok().and_then(|s| s.parse().ok());
         loop {
             match rx.recv_timeout(Duration::from_secs(5)) {
                 Ok(Msg::Beat(s)) => last = s,
                 Ok(Msg::Done(o)) => {
                     let _ = handle.join();
+                    if let Some(ms) = slow {
+                        if t0.elapsed().as_millis() >= ms {
+                            eprintln!("[byzsim-slow] {} ms: {} value {:?} hist {}", t0.elapsed().as_millis(), case.forged.field_name(case.field), case.forged.get(case.field), case.hist.len());
+                        }
+                    }
                     return *o;
                 }
                 Err(mpsc::RecvTimeoutError::Timeout) => {
                     // the helper is abandoned (it may never return)
                     let mut o = Outcome::default();
                     let field = case.forged.field_name(case.field);
-                    o.violate("work-cpu", format!("{}:{}:timeout", target_name(&case.forged), field), format!("probe '{last}' did not return within 5 s"), 0);
+                    let running = *current.lock().unwrap();
+                    let handler = if running == "-" { target_name(&case.forged) } else { running };
+                    o.violate("work-cpu", format!("{handler}:{field}:timeout"), format!("probe '{last}' did not return within 5 s (handler running: {running})"), 0);
                     return o;
                 }
                 Err(mpsc::RecvTimeoutError::Disconnected) => {
@@ -856,9 +892,9 @@ pub fn generate(seed: u64) -> Case {
         };
         let ecn = if matches!(field, Field::Ecn(_)) || f.one_in(5) { Some([side_val(&mut f, &[]), side_val(&mut f, &[]), side_val(&mut f, &[])]) } else { None };
         let mut forged = Forged::Ack {
-            largest: side_val(&mut f, &[Base::NextPn]),
+            largest: Val::rel(Base::NextPn, -1 - (f.below(4) as i64) * (f.below(4) as i64)),
             delay: Val::abs(*f.pick(&[0u64, 25, 1000, 100_000])),
-            first_range: side_val(&mut f, &[Base::Floor]),
+            first_range: if f.one_in(2) { Val::abs(f.below(3)) } else { Val::rel(Base::Floor, -(f.below(3) as i64)) },
             ranges: (0..nranges).map(|_| (Val::abs(f.below(3)), Val::abs(f.below(3)))).collect(),
             ecn,
         };
@@ -872,8 +908,12 @@ pub fn generate(seed: u64) -> Case {
         // a range field can only carry a large value without leaving the packet number space when Largest
         // Acknowledged is large too: both shapes are wanted (work in the first, error handling in the second)
         if matches!(field, Field::FirstRange | Field::Gap(_) | Field::Range(_)) && v.static_magnitude() >= 256 && !f.one_in(4) {
-            if let Forged::Ack { largest, .. } = &mut forged {
+            if let Forged::Ack { largest, first_range, .. } = &mut forged {
                 *largest = if f.one_in(2) { Val::max() } else { Val::pow(40) };
+                // exactly one field carries a large value: a first range anchored to a huge Largest would be a second one
+                if field != Field::FirstRange {
+                    *first_range = Val::abs(f.below(3));
+                }
             }
         }
         return Case { seed, hist: Hist::Journal(hist), forged, field };
@@ -892,8 +932,8 @@ pub fn generate(seed: u64) -> Case {
     }
     if target < 56 {
         // connection ids
-        let which = f.below(10);
-        if which < 2 {
+        let which = f.below(25);
+        if which < 2 && f.one_in(4) {
             let hist = cid::gen_hist(&mut r, 0, false);
             let v = match f.below(10) {
                 0 => Val::abs(0),
@@ -905,7 +945,7 @@ pub fn generate(seed: u64) -> Case {
             return Case { seed, hist: Hist::Cid(hist), forged: Forged::SetLimit { limit: v }, field: Field::Limit };
         }
         let hist = cid::gen_hist(&mut r, n.min(60), true);
-        if which < 6 {
+        if which < 14 {
             let field = if f.one_in(2) { Field::Seq } else { Field::Rpt };
             let forged = match field {
                 Field::Seq => Forged::NewCid { seq: draw_val(&mut f, &[Base::PeerNextSeq, Base::PeerRpt]), rpt: side_val(&mut f, &[Base::PeerRpt]) },
